@@ -189,6 +189,14 @@ class Builtin(object):
         return 'Builtin(%s)' % self.name
 
 
+class KeysList(list):
+    """a materialised keys() / items() view: iterates like the list, compares like a set (collections.abc.Set.__eq__ / dict_keys.__eq__)"""
+
+
+class ValuesList(list):
+    """a materialised values() view: iterates like the list, compares by identity (views define no __eq__)"""
+
+
 class AbstractCallable(object):
     """A callable known only by contract: apply(interp, args, kwargs) -> value (may raise)."""
 
